@@ -24,6 +24,8 @@ import (
 type Outcome struct {
 	O string `json:"o"`
 	D int    `json:"d"`
+	// B: how long (virtual ms) the reconcile runs before it returns the outcome
+	B int `json:"b"`
 }
 
 type ScriptStep struct {
@@ -46,6 +48,7 @@ type BLine struct {
 	T   int    `json:"t"`
 	O   string `json:"o"`
 	D   int    `json:"d"`
+	B   int    `json:"b"`
 }
 
 // outcomeError turns an abstract outcome into what Reconcile returns (or panics).
@@ -103,8 +106,12 @@ func runBackoff(t *testing.T, tr *vh.Trace, tid string, beh BBeh, concurrency ui
 					nextB++
 				}
 
-				emit(BLine{Ev: "rec", ID: ptr.ID(), T: now(), O: o.O, D: o.D})
+				emit(BLine{Ev: "rec", ID: ptr.ID(), T: now(), O: o.O, D: o.D, B: o.B})
 				mu.Unlock()
+
+				if o.B > 0 {
+					time.Sleep(time.Duration(o.B) * time.Millisecond)
+				}
 
 				return outcomeError(o)
 			},
